@@ -272,6 +272,34 @@ def render_schema(schema, roots=(), route_ns=None, annotations=None, patched=Non
             # annotations are namespace-wide: defined once, in the first file
             hdr = ['namespace %s' % ns, ''] + ['import %s' % r for r in sorted(refs - {ns})] + ['']
             out.append(('%s_patch.stone' % ns, '\n'.join(hdr + plines) + '\n'))
+    return apply_written(out, schema)
+
+
+# Names as they are WRITTEN in the spec text (model name -> written name).  Model names are unique across namespaces; Stone
+# only requires a name to be unique within its namespace, so a judge may ask for namesakes (e.g. nsa.R written `L` next to
+# nsb.L).  Applied to the rendered text: unqualified occurrences in the type's own namespace, qualified ones elsewhere.
+WRITTEN = {}
+
+
+def written(n):
+    return WRITTEN.get(n, n)
+
+
+def apply_written(files, schema):
+    if not WRITTEN:
+        return files
+    import re
+    out = []
+    for fname, text in files:
+        ns = fname.split('.')[0].split('_patch')[0]
+        for m, w in WRITTEN.items():
+            if m not in schema:
+                continue
+            mns = schema[m]['ns']
+            if mns == ns:
+                text = re.sub(r'(?<![\w.])%s\b' % re.escape(m), w, text)
+            text = re.sub(r'\b%s\.%s\b' % (re.escape(mns), re.escape(m)), '%s.%s' % (mns, w), text)
+        out.append((fname, text))
     return out
 
 
